@@ -15,6 +15,7 @@ CTX = 'urn:vk:ctx'
 POLY = 'urn:vk:poly'
 FX = 'urn:vk:fx'
 UN = 'urn:vk:un'
+MQ = 'urn:vk:mq'
 
 
 class N:
@@ -52,7 +53,7 @@ def esc_attr(s):
     return esc(s).replace('"', '&quot;').replace('\n', '&#10;').replace('\t', '&#9;')
 
 
-def render(root, prefixes=None, decl=True, extra_root_attrs=''):
+def render(root, prefixes=None, decl=True, extra_root_attrs='', rebinding=False):
     """Serialise with a fixed prefix map declared on the root. prefixes: {ns: prefix or ''}."""
     prefixes = dict(prefixes or {})
     used = set()
@@ -77,6 +78,37 @@ def render(root, prefixes=None, decl=True, extra_root_attrs=''):
         if not p and is_attr:
             raise ValueError('attribute in default namespace')
         return f'{p}:{local}' if p else local
+
+    def rec_rebinding(n, top, inherited):
+        """Element names unprefixed: the default namespace is re-bound wherever the namespace changes (also to '')."""
+        s = '<' + n.name
+        if top:
+            for ns, p in sorted(prefixes.items()):
+                if p and (ns in used or ns in (XSI,)):
+                    s += f' xmlns:{p}="{ns}"'
+            s += extra_root_attrs
+        if n.ns != inherited:
+            s += f' xmlns="{n.ns}"'
+        for ans, al, av in n.attrs:
+            s += f' {qn(ans, al, True)}="{esc_attr(av)}"'
+        if not n.children and n.text is None:
+            return s + '/>'
+        s += '>'
+        if n.text is not None:
+            s += esc(n.text)
+        for c in n.children:
+            s += rec_rebinding(c, False, n.ns)
+            if c.tail:
+                s += esc(c.tail)
+        return s + '</' + n.name + '>'
+
+    if rebinding:
+        for ns in list(prefixes):
+            if not prefixes[ns]:
+                auto += 1
+                prefixes[ns] = f'd{auto}'      # attributes and QName values still need a prefix
+        out = rec_rebinding(root, True, '')
+        return ('<?xml version="1.0" encoding="UTF-8"?>\n' if decl else '') + out
 
     def rec(n, top):
         s = '<' + qn(n.ns, n.name)
@@ -278,7 +310,7 @@ POLY_XSD = f'''<?xml version="1.0" encoding="UTF-8"?>
 '''
 
 FAMILIES = {'shop': SHOP_XSD, 'tree': TREE_XSD, 'ctx': CTX_XSD}
-FAMILY_NS = {'shop': SHOP, 'tree': TREE, 'ctx': CTX, 'poly': POLY, 'fx': FX, 'un': UN, 'plain': ''}
+FAMILY_NS = {'shop': SHOP, 'tree': TREE, 'ctx': CTX, 'poly': POLY, 'fx': FX, 'un': UN, 'plain': '', 'mixq': MQ}
 # families with special purposes (not part of the shared rotation): xsi:type-dependent identity constraints
 FX_XSD = f'''<?xml version="1.0" encoding="UTF-8"?>
 <xs:schema xmlns:xs="{XS}" targetNamespace="{FX}" xmlns:f="{FX}" elementFormDefault="qualified">
@@ -366,7 +398,33 @@ PLAIN_XSD = f'''<?xml version="1.0" encoding="UTF-8"?>
 </schema>
 '''
 
-EXTRA_FAMILIES = {'poly': POLY_XSD, 'fx': FX_XSD, 'un': UN_XSD, 'plain': PLAIN_XSD}
+# local elements unqualified, global ones qualified: the element namespace alternates between the target namespace
+# and no namespace along a path
+MQ_XSD = f'''<?xml version="1.0" encoding="UTF-8"?>
+<xs:schema xmlns:xs="{XS}" targetNamespace="{MQ}" xmlns:q="{MQ}">
+  <xs:element name="tag" type="xs:NCName"/>
+  <xs:element name="box">
+    <xs:complexType>
+      <xs:sequence>
+        <xs:element name="label" type="xs:string"/>
+        <xs:element name="size" type="xs:int" minOccurs="0"/>
+        <xs:element name="inner" minOccurs="0" maxOccurs="unbounded">
+          <xs:complexType>
+            <xs:sequence>
+              <xs:element ref="q:tag" maxOccurs="unbounded"/>
+              <xs:element name="note" type="xs:string" minOccurs="0"/>
+            </xs:sequence>
+            <xs:attribute name="n" type="xs:int"/>
+          </xs:complexType>
+        </xs:element>
+        <xs:element ref="q:tag" minOccurs="0"/>
+      </xs:sequence>
+    </xs:complexType>
+  </xs:element>
+</xs:schema>
+'''
+
+EXTRA_FAMILIES = {'poly': POLY_XSD, 'fx': FX_XSD, 'un': UN_XSD, 'plain': PLAIN_XSD, 'mixq': MQ_XSD}
 
 
 def family_xsd(family, version):
@@ -657,7 +715,26 @@ def gen_plain(rng, fault=None):
     return root
 
 
-GENERATORS = {'plain': gen_plain, 'un': gen_un, 'shop': gen_shop, 'tree': gen_tree, 'ctx': gen_ctx, 'poly': gen_poly, 'fx': gen_fx}
+def gen_mixq(rng, fault=None):
+    root = N(MQ, 'box', meta={'elem_only': True, 'required_children': ['label']})
+    root.children.append(N('', 'label', text=rng.choice(('a label', 'x', ''))))
+    if rng.random() < 0.6:
+        root.children.append(N('', 'size', text=str(rng.randint(-3, 40)), meta={'bad_text': 'big'}))
+    for i in range(rng.randint(0, 3)):
+        inner = N('', 'inner', meta={'elem_only': True, 'required_children': ['tag'], 'bad_attr': {'n': 'n1'}})
+        if rng.random() < 0.5:
+            inner.attrs.append(('', 'n', str(i)))
+        for _ in range(rng.randint(1, 3)):
+            inner.children.append(N(MQ, 'tag', text=rng.choice(('t1', 'alpha', 'z_9')), meta={'bad_text': '1 t'}))
+        if rng.random() < 0.4:
+            inner.children.append(N('', 'note', text='n'))
+        root.children.append(inner)
+    if rng.random() < 0.5:
+        root.children.append(N(MQ, 'tag', text='last', meta={'bad_text': 'a b'}))
+    return root
+
+
+GENERATORS = {'mixq': gen_mixq, 'plain': gen_plain, 'un': gen_un, 'shop': gen_shop, 'tree': gen_tree, 'ctx': gen_ctx, 'poly': gen_poly, 'fx': gen_fx}
 
 
 # ---------------------------------------------------------------------------------------------
@@ -786,13 +863,15 @@ def default_prefixes(family, rng=None):
     if family == 'plain':
         return {}
     ns = FAMILY_NS[family]
-    base = {'shop': 's', 'tree': 't', 'ctx': 'c', 'poly': 'p', 'fx': 'f', 'un': 'u'}[family]
+    base = {'shop': 's', 'tree': 't', 'ctx': 'c', 'poly': 'p', 'fx': 'f', 'un': 'u', 'mixq': 'q'}[family]
     if rng is None:
         return {ns: base, EXT: 'e'}
+    if family == 'mixq':
+        return {ns: rng.choice((base, 'mq')), EXT: 'e'}     # unqualified children: the family namespace needs a prefix
     return {ns: rng.choice((base, '', 'q')), EXT: 'e'}
 
 
-def render_doc(root, family, rng=None, prefixes=None):
+def render_doc(root, family, rng=None, prefixes=None, rebinding=False):
     """Render; QName-valued content (xsi:type='s:Company') needs the 's' prefix bound."""
     prefixes = dict(prefixes or default_prefixes(family, rng))
     extra = ''
@@ -802,4 +881,4 @@ def render_doc(root, family, rng=None, prefixes=None):
         extra = f' xmlns:p="{POLY}"'
     if family == 'fx':
         extra = f' xmlns:xs="{XS}"'
-    return render(root, prefixes, extra_root_attrs=extra)
+    return render(root, prefixes, extra_root_attrs=extra, rebinding=rebinding)
